@@ -387,6 +387,12 @@ impl<T: Copy> Arr2D<T> {
     }
 
     pub fn swap_rows(&mut self, mut a: usize, mut b: usize) {
+        if a >= self.height || b >= self.height {
+            panic!(
+                "Out of bound row index ({a},{b}) into Arr2D of shape ({},{})",
+                self.height, self.width
+            )
+        }
         if a == b {
             return;
         }
